@@ -23,6 +23,7 @@ fn main() {
         "literal_exact" => literal_exact(&input),
         "name_spelling" => name_spelling(&input),
         "simplify_value" => simplify_value(&input),
+        "frame_match" => frame_match(&input),
         other => {
             eprintln!("unknown replay kind {other}");
             std::process::exit(64);
@@ -253,6 +254,81 @@ fn simplify_value(text: &str) -> Result<(), String> {
             }
         }
         println!("{line}  ok");
+    }
+    Ok(())
+}
+
+/// C26: for every body instruction, the frames the default handler reports as used / blocked follow the Quil-T rules
+fn frame_match(text: &str) -> Result<(), String> {
+    use quil_rs::instruction::{DefaultHandler, FrameIdentifier, InstructionHandler, Qubit};
+    use std::collections::HashSet;
+    let program = Program::from_str(text).map_err(|e| format!("input does not parse: {e}"))?;
+    let defined: HashSet<&FrameIdentifier> = program.frames.get_keys().into_iter().collect();
+    let shares = |f: &FrameIdentifier, qs: &HashSet<&Qubit>| f.qubits.iter().any(|q| qs.contains(q));
+    let exactly = |f: &FrameIdentifier, qs: &HashSet<&Qubit>| f.qubits.iter().collect::<HashSet<_>>() == *qs;
+    for instruction in program.body_instructions() {
+        let Some(m) = DefaultHandler.matching_frames(&program, instruction) else { continue };
+        let show = quil_rs::quil::Quil::to_quil_or_debug(instruction);
+        println!("{show}: used {} blocked {}", m.used.len(), m.blocked.len());
+        if let Some(f) = m.used.iter().chain(m.blocked.iter()).find(|f| !defined.contains(*f)) {
+            return Err(format!("`{show}`: reported frame {f:?} is not defined in the program"));
+        }
+        if let Some(f) = m.used.intersection(&m.blocked).next() {
+            return Err(format!("`{show}`: frame {f:?} is reported both as used and as blocked"));
+        }
+        let expect = |what: &str, got: &HashSet<&FrameIdentifier>, want: HashSet<&FrameIdentifier>| -> Result<(), String> {
+            if *got != want {
+                return Err(format!("`{show}`: {what} frames are {got:?} but the rules give {want:?}"));
+            }
+            Ok(())
+        };
+        let own = |frame: &FrameIdentifier, blocking: bool| -> Result<(), String> {
+            let qs: HashSet<&Qubit> = frame.qubits.iter().collect();
+            expect("used", &m.used, defined.iter().copied().filter(|f| *f == frame).collect())?;
+            expect(
+                "blocked",
+                &m.blocked,
+                defined.iter().copied().filter(|f| blocking && *f != frame && shares(f, &qs)).collect(),
+            )
+        };
+        match instruction {
+            Instruction::Pulse(p) => own(&p.frame, p.blocking)?,
+            Instruction::Capture(p) => own(&p.frame, p.blocking)?,
+            Instruction::RawCapture(p) => own(&p.frame, p.blocking)?,
+            Instruction::SetFrequency(p) => own(&p.frame, false)?,
+            Instruction::SetPhase(p) => own(&p.frame, false)?,
+            Instruction::SetScale(p) => own(&p.frame, false)?,
+            Instruction::ShiftFrequency(p) => own(&p.frame, false)?,
+            Instruction::ShiftPhase(p) => own(&p.frame, false)?,
+            Instruction::SwapPhases(p) => {
+                expect("used", &m.used, defined.iter().copied().filter(|f| **f == p.frame_1 || **f == p.frame_2).collect())?;
+                expect("blocked", &m.blocked, HashSet::new())?;
+            }
+            Instruction::Fence(p) => {
+                let qs: HashSet<&Qubit> = p.qubits.iter().collect();
+                expect("used", &m.used, defined.iter().copied().filter(|f| p.qubits.is_empty() || shares(f, &qs)).collect())?;
+                expect("blocked", &m.blocked, HashSet::new())?;
+            }
+            Instruction::Delay(p) => {
+                let qs: HashSet<&Qubit> = p.qubits.iter().collect();
+                expect(
+                    "used",
+                    &m.used,
+                    defined
+                        .iter()
+                        .copied()
+                        .filter(|f| exactly(f, &qs) && (p.frame_names.is_empty() || p.frame_names.contains(&f.name)))
+                        .collect(),
+                )?;
+                expect("blocked", &m.blocked, HashSet::new())?;
+            }
+            Instruction::Reset(quil_rs::instruction::Reset { qubit: Some(q) }) => {
+                let qs: HashSet<&Qubit> = [q].into_iter().collect();
+                expect("used", &m.used, defined.iter().copied().filter(|f| exactly(f, &qs)).collect())?;
+                expect("blocked", &m.blocked, defined.iter().copied().filter(|f| shares(f, &qs) && !exactly(f, &qs)).collect())?;
+            }
+            _ => {}
+        }
     }
     Ok(())
 }
